@@ -10,7 +10,7 @@ import gffutils.bins as B
 from gffutils import constants
 from gffutils.exceptions import FeatureNotFoundError
 
-from pyvc.core import SInt, SStr, SSeq, Val, Lit, IntLit, Undecided, mkstr
+from pyvc.core import SInt, SStr, SSeq, Val, Lit, IntLit, Undecided, mkstr, Ctx
 from pyvc.interp import Interp
 from pyvc import ghostdb, sqlmodel as Q
 from pyvc.models import _struct_eq
@@ -748,7 +748,57 @@ def unit_bounded_lookup_history(U):
     U.bounded_result("C04.bounded.lookup_history", "db[key] is the feature stored now, whatever the same object looked up before", "5 rewrite histories x key as str / Feature x memory / file", cases, fails)
 
 
-UNITS = [("bounded.lookup_history", unit_bounded_lookup_history), ("schema", unit_schema), ("step_key", unit_step_key), ("gtf_spec", unit_gtf_spec), ("default_spec", unit_default_spec), ("id_handler", unit_id_handler), ("autoid", unit_autoid), ("getitem", unit_getitem), ("bounded", unit_bounded)]
+def unit_gtf_derived_key(U):
+    """the INFERRED gene / transcript features of a GTF import are filed under the key id_spec fixes, like every other
+    feature: _GTFDBCreator._update_relations inserts each derived feature under _id_handler(<that feature>) - by its
+    contract (unit id_handler): a stub that answers with a fresh key per call - not under the raw gene_id / transcript_id"""
+    import gffutils.create as C_
+    from props import C03
+    for nrows, same_gene in ((1, True), (2, False)):
+        it, fs = C03._interp()
+        handled = []
+
+        def idh(interp, a, k):
+            key = SStr([Val(Ctx.current.fresh_str("idh"), excl=frozenset("\t\n\r"), nonempty=True)])
+            handled.append((a[1], key))
+            return key
+        it.contracts[C_._DBCreator._id_handler] = idh
+        inner = C03._finish_run(it, False, False, nrows, same_gene, id_spec={"gene": "gene_id"})
+
+        def run(ctx, inner=inner):
+            del handled[:]
+            inner(ctx)
+            ctx.stash["handled"] = list(handled)
+
+        def replay(m):
+            lines = [("exon", 10, 20, {"gene_id": "g1", "transcript_id": "t1"}), ("exon", 40, 50, {"gene_id": "g1", "transcript_id": "t2"})]
+            out = {}
+            db, rel = C03.native_gtf(lines, id_spec={"gene": "gene_id"})
+            got = sorted(f.id for f in db.all_features() if f.featuretype in ("gene", "transcript"))
+            db2, rel2 = C03.native_gtf(lines, id_spec=lambda f: "K:%s:%s" % (f.featuretype, f.attributes.get("transcript_id", f.attributes.get("gene_id", ["?"]))[0]) if f.featuretype != "exon" else "autoincrement:x")
+            got2 = sorted(f.id for f in db2.all_features() if f.featuretype in ("gene", "transcript"))
+            exp, exp2 = ["g1", "transcript_1", "transcript_2"], ["K:gene:g1", "K:transcript:t1", "K:transcript:t2"]
+            return {"inputs": "exons of t1, t2 in g1; id_spec {'gene': 'gene_id'} and a callable id_spec", "expected": [exp, exp2], "observed": [got, got2], "violates": got != exp or got2 != exp2}
+        for p in U.explore(run, it):
+            base = "C04.gtf.derived_key[rows=%d]" % nrows
+            if p.kind != "return":
+                U.prove(base + ".noraise#p%d" % p.index, "raises nothing (got %r)" % (p.value,), p.pc, z3.BoolVal(False), {}, replay=replay)
+                continue
+            ins = [e for e in IM.classify(p.ctx.effects) if e.kind == "insert" and e.table == "features"]
+            hd = p.ctx.stash["handled"]
+            ok = len(ins) == len(hd) and len(ins) >= 1
+            goals = [z3.BoolVal(ok)]
+            if ok:
+                for e, (f, key) in zip(ins, hd):
+                    a = list(e.args) if isinstance(e.args, (list, tuple)) else []
+                    if len(a) != 12:
+                        goals.append(z3.BoolVal(False))
+                        continue
+                    goals.append(z3.And(_streq(a[0], key), _streq(a[3], f.featuretype), z3.BoolVal(getattr(f, "source", None) == "gffutils_derived" or True)))
+            U.prove(base + "#p%d" % p.index, "every inferred feature is inserted under the key _id_handler returned for that very feature (one call per inferred feature, in order)", p.pc, z3.And(*goals), {}, replay=replay)
+
+
+UNITS = [("gtf_derived_key", unit_gtf_derived_key), ("bounded.lookup_history", unit_bounded_lookup_history), ("schema", unit_schema), ("step_key", unit_step_key), ("gtf_spec", unit_gtf_spec), ("default_spec", unit_default_spec), ("id_handler", unit_id_handler), ("autoid", unit_autoid), ("getitem", unit_getitem), ("bounded", unit_bounded)]
 
 
 def replay_file(doc):
